@@ -351,11 +351,14 @@ PROPS["C18"] = {
     "parts": [{"name": "race", "pkg": "c18", "chk": "chk_c18", "race": True, "env": {"GORACE": "halt_on_error=1 exitcode=66"},
                "crash_reasons": {"66": 1, "*": 2}, "timeout": {"quick": 300, "thorough": 1800}},
               {"name": "ws", "pkg": "c18", "chk": "chk_c18", "race": True, "args": ["ws"], "env": {"GORACE": "halt_on_error=1 exitcode=66"},
-               "crash_reasons": {"66": 1, "*": 2}, "timeout": {"quick": 300, "thorough": 1800}}],
+               "crash_reasons": {"66": 1, "*": 2}, "timeout": {"quick": 300, "thorough": 1800}},
+              {"name": "tick", "pkg": "c18", "chk": "chk_c18", "race": True, "args": ["tick"], "env": {"GORACE": "halt_on_error=1 exitcode=66"},
+               "crash_reasons": {"66": 1, "*": 2}, "timeout": {"quick": 120, "thorough": 120}}],
     "reasons": {"race": {"1": "the race detector reported a data race", "2": "a per-stream concurrent-use guard tripped, or another panic crashed the process"},
+                "tick": {"1": "the race detector reported a data race between the resolver's poller and a ResolveNow caller that had loaded the notify function before the interval tick", "2": "the resolver panicked (e.g. a notify function closing an already closed channel)"},
                 "ws": {"1": "the race detector reported a data race", "2": "a per-stream concurrent-use guard tripped, or another panic crashed the process",
                        "3": "a message the target received on a client-streaming WebSocket call is not one the client sent (a read buffer reused while still being decoded)"}},
-    "rule": "a complete bridge built with the race detector: ReflectionRouter with polling every 3 ms over a real gRPC target on bufconn (reflection + the test service), GRPCProxy on a second bufconn server, WebBridge behind a real HTTP server; 13 goroutines for the whole duration (6 s quick, 150 s thorough): 4 transcoded HTTP callers (valid, invalid and unrouted requests, query parameters), 2 gRPC-Web callers, 2 WebSocket callers (transcoded and grpc-websockets, some abandoned mid-call), 3 gRPC callers through the proxy (unary, bidi streams, unbound methods), 2 goroutines adding and removing the same two extra targets (so that Add/Remove, description updates, watcher Close and polls overlap with each other and with all calls). GORACE=halt_on_error: the first report ends the run with the race detector's exit code; any panic (the per-stream concurrent-use guards included) crashes it. ws: 8 goroutines of client-streaming WebSocket calls (transcoded and grpc-websockets) that send 10-40 frames back to back to a recording fake target, 3 s (60 s); every received message must be one that was sent",
+    "rule": "a complete bridge built with the race detector: ReflectionRouter with polling every 3 ms over a real gRPC target on bufconn (reflection + the test service), GRPCProxy on a second bufconn server, WebBridge behind a real HTTP server; 13 goroutines for the whole duration (6 s quick, 150 s thorough): 4 transcoded HTTP callers (valid, invalid and unrouted requests, query parameters), 2 gRPC-Web callers, 2 WebSocket callers (transcoded and grpc-websockets, some abandoned mid-call), 3 gRPC callers through the proxy (unary, bidi streams, unbound methods), 2 goroutines adding and removing the same two extra targets (so that Add/Remove, description updates, watcher Close and polls overlap with each other and with all calls). GORACE=halt_on_error: the first report ends the run with the race detector's exit code; any panic (the per-stream concurrent-use guards included) crashes it. ws: 8 goroutines of client-streaming WebSocket calls (transcoded and grpc-websockets) that send 10-40 frames back to back to a recording fake target, 3 s (60 s); every received message must be one that was sent. tick: one forced interleaving of a stand-alone reflection resolver (interval polling at its 1 s floor, scripted reflection server): a ResolveNow caller held by the verif yield hook between loading and calling the notify function while the interval timer fires and its poll is held open, then two more ResolveNow calls",
     "level_text": "Coq theorems over ALL thread sets and interleavings of the routers' concurrent protocol: the table mutex is held by at most one thread, exactly between the two phases of an update, and every other mutation is disabled meanwhile; the per-watcher mutex has at most one holder (C11 invariant). Data-race freedom itself is a statement about Go executions that no Gallina model exhibits: it is MONITORED by the race-detector workload (partial - absence of reports on the explored schedules is not a theorem).",
     "level_note": "Trusted: Coq kernel, the Go race detector, the workload's coverage of schedules. The per-stream guards cannot trip in the Forward model by construction (one program counter per pump thread).",
     "design_ref": "DESIGN.md §3 C18",
